@@ -6,6 +6,7 @@ import OsacaVerif.Driver.C18
 import OsacaVerif.Driver.C17
 import OsacaVerif.Driver.C20
 import OsacaVerif.Driver.C11
+import OsacaVerif.Driver.C13
 open OsacaVerif OsacaVerif.Proto
 
 /-- one handler per property module; the first that recognises the op answers -/
@@ -16,7 +17,8 @@ def handlers : List (Req → Option String) := [
   Driver.C18.handle,
   Driver.C17.handle,
   Driver.C20.handle,
-  Driver.C11.handle
+  Driver.C11.handle,
+  Driver.C13.handle
 ]
 
 def dispatch (r : Req) : String :=
